@@ -545,6 +545,7 @@ class Runner(object):
         ok = {
             "lower": {"str"}, "upper": {"str"}, "strip": {"str"}, "startswith": {"str"}, "endswith": {"str"}, "split": {"str"}, "format": {"str"}, "encode": {"str"}, "isdigit": {"str"},
             "is_integer": {"float", "int", "bool"}, "real": NUMERIC, "imag": NUMERIC, "bit_length": {"int", "bool"}, "as_integer_ratio": NUMERIC,
+            "append": LISTS, "extend": LISTS, "insert": LISTS, "sort": LISTS, "reverse": LISTS, "index": LISTS | TUPLES | {"str"}, "count": LISTS | TUPLES | {"str"},
             "join": {"str"}, "replace": {"str"}, "lstrip": {"str"}, "rstrip": {"str"}, "title": {"str"}, "capitalize": {"str"}, "casefold": {"str"},
             "items": DICTS, "keys": DICTS, "values": DICTS, "get": DICTS,
             "result": {"command"}, "result_name": {"command"}, "is_finished": {"command"}, "is_running": {"command"}, "is_fuzzy": {"command"}, "output": {"command"}, "name": {"command", "argument"},
@@ -559,6 +560,8 @@ class Runner(object):
         if a == "result":
             self.notes.append("touch-result")
             return V({"ndarray", "any"}, tag="result", derived=True)
+        if a in ("append", "extend", "insert", "sort", "reverse", "index", "count"):
+            return V({"method"}, tag=a, derived=b.derived)
         if a in ("is_integer", "bit_length", "as_integer_ratio"):
             return V({"method"}, tag=a, derived=b.derived)
         if a in ("real", "imag"):
@@ -644,6 +647,8 @@ class Runner(object):
                     return self.inline(m, A, K, e)
             if name in MUTATORS and (recv.derived or recv.kinds & {"program"}):
                 self.effects.append("mutating-call:%s" % _src(e.func))
+            if name in ("append", "extend", "insert") and isinstance(f.value, ast.Name) and recv.kinds <= LISTS and not recv.derived:
+                env[f.value.id] = V({"list1"} if name == "append" or name == "insert" else {"list0", "list1"}, tag=recv.tag)
             if recv.tag == "valid_types" or recv.kinds == {"method"} or True:
                 mv = self.attr(recv, f, fi) if not (recv.kinds <= {"self", "global"}) else V({"method"}, tag=name)
                 return self.method_call(recv, name, mv, A, e)
@@ -680,6 +685,8 @@ class Runner(object):
             return V({"any", "none"}, derived=recv.derived)
         if name in MUTATORS:
             return V({"none"})
+        if name in ("index", "count"):
+            return V({"int"})
         if name == "encode":
             return V({"bytes"})
         if name == "decode":
